@@ -327,6 +327,11 @@ RULES = {
     "R16b": [(".unwrap_or_else(Local::now)", ".unwrap_or_else(|| -> (r: DateTime<Local>) ensures r == clock_now() { Local::now() })")],
     # R3b (computed): a closure whose single parameter is a tuple pattern gets a variable parameter `p0__` and a destructuring `let`
     "R3b": [],
+    # R25: `s.len()` on a str (vstd owns the specification of str::len, which says nothing usable about bytes vs. characters) ->
+    # shim `s.vlen()`: the byte length as an oracle with the UTF-8 axioms of the unit
+    "R25": [(".len()", ".vlen()")],
+    # R24: `s.chars()` (the Chars iterator has no specification) -> shim `s.vchars()`: an eager cursor over the characters
+    "R24": [(".chars()", ".vchars()")],
     # R23: `s.chunks(n)` (an iterator type without specification) -> shim `s.vchunks(n)`: the eager vector of the chunks
     "R23": [(".chunks(", ".vchunks(")],
     # R22: `new_spec.as_ref()` (S: AsRef<str>) -> shim `vas_ref(&new_spec)`
